@@ -170,6 +170,23 @@ func (s *ProtoScenario) Check(k *sim.Kernel) []sim.Violation {
 			}
 		}
 	}
+	// ---- a streaming handler is told when its peer is gone: once the client's end
+	// has been closed or reset, at most one further Reply reports success
+	for ci := range s.Clients {
+		conn := conns[ci]
+		if conn == nil || !conn.Client.Closed {
+			continue
+		}
+		late := 0
+		for _, e := range perClient[ci] {
+			if e.kind == "h.stream" && e.seq > conn.Client.CloseSeq && strings.Contains(e.data, `"err":"nil"`) {
+				late++
+			}
+		}
+		if late > 1 {
+			out = append(out, vio("resource-release", "handler-not-told-peer-is-gone", "client%d closed its end at seq %d; afterwards %d more continues-replies of the streaming handler on that connection reported success", ci, conn.Client.CloseSeq, late))
+		}
+	}
 	// handler events that belong to no scripted client (the probe connection has none)
 	for _, e := range perClient[-1] {
 		if e.kind == "h.enter" {
